@@ -58,9 +58,11 @@ ASSUMPTIONS = [
     'on the pipeline object only',
     'input-unchanged is judged per stage on the real code for the first two top-level stages '
     'other than $lookup / $out / $facet / $sample whose prefix is deterministic; a $unwind whose '
-    'includeArrayIndex is a dotted name going through the unwound field itself writes the index '
-    'into the re-attached original array element — an object of the stage\'s input, never of the '
-    'store or of the caller (aggregate works on copies): counted, not judged, outside the heap model',
+    'includeArrayIndex is a dotted name going through the unwound field itself, on a document '
+    'that holds a SUB-DOCUMENT (no array) there, writes the (null) index into that sub-document, '
+    'which is re-attached as it is — an object of the stage\'s input, never of the '
+    'store or of the caller (aggregate works on copies): counted, not judged, outside the heap '
+    'model (array elements are the output document\'s own copies and ARE judged)',
     'repeatability is judged on two consecutive runs on the same database; when $out writes a '
     'collection the pipeline reads, the second run sees other data and is not compared; with '
     '$sample in the pipeline the two runs are two draws: their answers (and whether a later stage '
@@ -97,6 +99,11 @@ FOLLOWED = [
     ('5c2730e', [{'$facet': {'x': [{'$unwind': {'path': '$arr', 'preserveNullAndEmptyArrays': True,
                                                 'includeArrayIndex': 'm.ix'}}],
                              'y': [{'$unwind': {'path': '$arr', 'includeArrayIndex': 'a.ix'}}]}}]),
+    # 0383ef2: every output document of $unwind holds its own copy of the element
+    ('0383ef2', [{'$unwind': {'path': '$arr', 'includeArrayIndex': 'arr.ix'}}]),
+    ('0383ef2', [{'$facet': {'x': [{'$unwind': {'path': '$arr', 'includeArrayIndex': 'arr.p.ix',
+                                                'preserveNullAndEmptyArrays': True}}],
+                             'y': [{'$unwind': '$arr'}, {'$addFields': {'arr.w': 1}}]}}]),
     # 482a7bb: $count over no documents
     ('482a7bb', [{'$match': {'k': 7}}, {'$count': 'n'}]),
     # 2432305: stage documents with no / several operators
@@ -326,8 +333,8 @@ class Judge(object):
             if 'input' not in a:
                 continue
             i = int(tag.split(':')[1])
-            if L.index_through_unwound(p[i]):
-                self.checks['input_not_judged_index_through_unwound_field'] += 1
+            if L.index_through_unwound(p[i], dec(a['input_before'])):
+                self.checks['input_not_judged_index_through_unwound_subdocument'] += 1
                 continue
             self.checks['input_unchanged'] += 1
             if a['input'] != a['input_before'] or not a.get('input_ids_same', True):
